@@ -264,7 +264,7 @@ pub fn run(ctx: &mut Ctx) {
     for (n, ok) in r9::selftest(false) {
         ctx.selftest(&n, ok);
     }
-    ctx.require(&["annex_kat", "fixed_r_exact", "free_r", "ref_made_accepted", "bitflip_h", "bitflip_h_ge_N", "bitflip_S", "h=0", "h=N-1", "h=N", "h=2^256-1", "h+N_alias", "S=-S", "S=offcurve_y_plus_1", "S=(0,0)", "S=infinity", "S_rerandomised_Z", "msg_changed", "id_changed", "master_key_changed", "msg_empty", "id_empty", "ks=H1(id)_doubling_in_verify", "verifier_has_public_key_only", "interleaved_master_keys_same_id", "id_beyond_2^16_bits", "msg_beyond_2^16_bits", "id_changed_beyond_8191_bytes"]);
+    ctx.require(&["annex_kat", "fixed_r_exact", "free_r", "ref_made_accepted", "bitflip_h", "bitflip_h_ge_N", "bitflip_S", "h=0", "h=N-1", "h=N", "h=2^256-1", "h+N_alias", "S=-S", "S=offcurve_y_plus_1", "S=(0,0)", "S=infinity", "S_rerandomised_Z", "msg_changed", "id_changed", "master_key_changed", "msg_empty", "id_empty", "ks=H1(id)_doubling_in_verify", "verifier_has_public_key_only", "interleaved_master_keys_same_id", "id_beyond_2^16_bits", "msg_beyond_2^16_bits", "id_changed_beyond_8191_bytes", "many_calls_one_process"]);
     let pr = r9::params();
     // --- Annex example
     if ctx.shard == 0 {
@@ -317,6 +317,56 @@ pub fn run(ctx: &mut Ctx) {
         if i % 16 == 0 {
             ctx.sample(json!({"sign_case": wit(&ks, &id, &msg, Some(&r))}));
         }
+    }
+    // --- many calls in one process: anything that depends on the number of calls made so far (a counter that wraps at
+    // 256, a table refreshed every K uses, a recycled scratch pool) shows only here. One key, one message; every 25th
+    // verification gets a tampered h and must fail.
+    if ctx.shard == 0 {
+        let mut pm = ctx.prng("many");
+        let ks = rand_scalar(&mut pm, &(&pr.n - 1u32));
+        let id = b"many-calls".to_vec();
+        let msg = pm.bytes(40);
+        let mk = sign_master(&ks);
+        if let (Some(key), r) = (sign_key_from_ref(&ks, &id), rand_scalar(&mut pm, &(&pr.n - 1u32))) {
+            if let Some((h, s)) = r9::sign(&ks, &id, &msg, &r) {
+                let (hl, sl) = (limbs(&h), lib_g1_affine(&s));
+                let hbad = limbs(&((&h + 1u32) % &pr.n));
+                for i in 0..300u32 {
+                    ctx.eval();
+                    ctx.class("many_calls_one_process");
+                    let bad = i % 25 == 24;
+                    let o = guard(|| mk.verify_sign(&id, &msg, if bad { &hbad } else { &hl }, &sl));
+                    match (bad, &o) {
+                        (false, Outcome::Ret(Ok(_))) | (true, Outcome::Ret(Err(_))) => {}
+                        _ => {
+                            ctx.violation(&format!("verify_sign:call-number-dependent:{}", if bad { "tampered-accepted-or-crash" } else { "valid-rejected" }), json!({"call_number": i, "case": wit(&ks, &id, &msg, Some(&r))}));
+                            break;
+                        }
+                    }
+                }
+                for i in 0..120u32 {
+                    let r2_ = rand_scalar(&mut pm, &(&pr.n - 1u32));
+                    ctx.eval();
+                    ctx.class("many_calls_one_process");
+                    rng_prepare(&[&r2_]);
+                    let o = guard(|| key.sign(&msg));
+                    let seen = rng_seen();
+                    if let (Outcome::Ret(Ok((lh, ls))), Some(used)) = (&o, seen.accepted.last()) {
+                        if let Some((eh, es)) = r9::sign(&ks, &id, &msg, used) {
+                            if r9::from_limbs(lh) != eh || r9::ref_g1(ls) != Some(es) {
+                                ctx.violation("sign:call-number-dependent:signature-differs-from-standard", json!({"call_number": i, "case": wit(&ks, &id, &msg, Some(used))}));
+                                break;
+                            }
+                        }
+                    } else {
+                        ctx.violation(&format!("sign:call-number-dependent:{}", oc(&o)), json!({"call_number": i}));
+                        break;
+                    }
+                }
+            }
+        }
+    } else {
+        ctx.class("many_calls_one_process");
     }
     // --- verifier-only key objects and interleaved master keys
     // (a) a relying party has Ppub-s but not ks: verification must depend on the public part only
